@@ -145,12 +145,105 @@ fn check(p: &Pos, ev: &mut Evaluator, prev: &mut Vec<(Pos, i32)>, st: &mut Stats
     }
 }
 
+
+/// Nearly full material with a pawn one step from promotion: the start position with one side's
+/// pawn lifted to the seventh rank of a wing file (the enemy pawn and piece in its way removed).
+fn g_early_promotion(rng: &mut Rng) -> Pos {
+    loop {
+        let mut p = Pos::start();
+        let c = rng.below(2) as u8;
+        let f = *rng.pick(&[0i8, 1, 2, 6, 7]);
+        let (home, seventh, eighth) = if c == WHITE { (1, 6, 7) } else { (6, 1, 0) };
+        p.sq[sq(f, home) as usize] = 0;
+        p.sq[sq(f, seventh) as usize] = pc(c, P);
+        if rng.chance(2, 3) {
+            p.sq[sq(f, eighth) as usize] = 0;
+        }
+        // rights of a removed corner rook go with it
+        if f == 0 || f == 7 {
+            let bit = match (c, f) {
+                (WHITE, 0) => BQ,
+                (WHITE, _) => BK,
+                (_, 0) => WQ,
+                _ => WK,
+            };
+            if p.sq[sq(f, eighth) as usize] == 0 {
+                p.castle &= !bit;
+            }
+        }
+        p.stm = if rng.chance(2, 3) { c } else { c ^ 1 };
+        if p.validity().is_ok() {
+            return p;
+        }
+    }
+}
+
+/// A game played on ONE engine board mutated in place; after every ply the evaluation of that board
+/// must equal the evaluation of the same position set up afresh from its FEN (the score depends on
+/// the placement and the side to move, not on how the board object got there).
+fn inplace_game(start: &Pos, plies: usize, rng: &mut Rng, st: &mut Stats) {
+    use crate::board::Board;
+    use crate::move_gen::MoveGenerator;
+    let mg = MoveGenerator::new();
+    let mut b = eng::board_from_pos(start);
+    let mut cur = start.clone();
+    let mut played: Vec<String> = vec![];
+    for _ in 0..plies {
+        let legal = cur.legal_moves();
+        if legal.is_empty() {
+            break;
+        }
+        let m = gen::pick_move(&cur, &legal, rng);
+        let u = m.uci();
+        let ok = engine_call(|| {
+            let ms = mg.generate_moves(&b);
+            match ms.iter().find(|x| x.to_algebraic() == u) {
+                Some(em) => {
+                    b.make_move(em);
+                    true
+                }
+                None => false,
+            }
+        });
+        if ok != Ok(true) {
+            return; // C01/C02's concern
+        }
+        if m.promo != 0 {
+            st.bump("inplace_promotions_played");
+            if cur.piece_count() >= 28 {
+                st.bump("inplace_promotions_played_with_28_or_more_men");
+            }
+        }
+        cur = cur.make(&m);
+        played.push(u);
+        let afresh = Board::new(&cur.to_fen());
+        st.bump("inplace_vs_fen_comparisons");
+        st.case(hash64(&(cur.sq, cur.stm, 0x1au8)), true);
+        match engine_call(|| (Evaluator::new().evaluate(&b), Evaluator::new().evaluate(&afresh))) {
+            Ok((x, y)) => {
+                if x != y {
+                    st.violation(
+                        format!("C14:inplace:{}", cur.placement_fen()),
+                        format!("after playing {} from {} on one board, evaluate gives {} but the same position set up from its FEN ({}) evaluates to {}", played.join(" "), start.to_fen(), x, cur.to_fen(), y),
+                        J::obj(vec![("kind", J::s("inplace")), ("start", J::s(start.to_fen())), ("moves", J::arr_s(played.clone()))]),
+                    );
+                    return;
+                }
+            }
+            Err(msg) => {
+                st.violation(format!("C14:panic:{}", cur.placement_fen()), format!("evaluate panicked on {}: {}", cur.to_fen(), msg), case_json(&cur));
+                return;
+            }
+        }
+    }
+}
+
 pub fn run(ctx: &Ctx) -> i32 {
     let spec = Spec {
         level: "exploration",
-        rule: "cases are positions (games, corpus, synthetic, heavy-material positions with up to nine queens, studies); for each: evaluate on a long-lived evaluator vs a fresh one (purity, incl. A,B,A re-evaluation), negation when only the side to move is swapped (both positions valid), equality with the vertically mirrored colour-exchanged position, independence of rights/ep/counters, |score| < 30000. Distinct by (placement, side); non-trivial when more than the two kings are on the board",
+        rule: "cases are positions (games, corpus, synthetic, heavy-material positions with up to nine queens, studies); for each: evaluate on a long-lived evaluator vs a fresh one (purity, incl. A,B,A re-evaluation), negation when only the side to move is swapped (both positions valid), equality with the vertically mirrored colour-exchanged position, independence of rights/ep/counters, |score| < 30000; games (from the start position, the corpus, promotion races and near-full-material positions with a pawn on the seventh rank) are played on ONE board mutated in place and after every ply the evaluation of that board must equal that of the same position set up from its FEN. Distinct by (placement, side); non-trivial when more than the two kings are on the board",
         assumptions: vec!["the bound checked is 30000 (window +-32767); today's maximum is reported as max_abs_eval".into(), "rules oracle validated by perft at start (used only for validity of generated positions)".into()],
-        required: if ctx.replay.is_some() { vec![] } else { vec!["purity_checks", "aba_checks", "side_swap_pairs", "mirror_pairs", "flags_ignored_pairs", "src_heavy"] },
+        required: if ctx.replay.is_some() { vec![] } else { vec!["purity_checks", "aba_checks", "side_swap_pairs", "mirror_pairs", "flags_ignored_pairs", "src_heavy", "inplace_vs_fen_comparisons", "inplace_promotions_played_with_28_or_more_men"] },
         exhaustive: false,
         extra: vec![],
     };
@@ -159,6 +252,31 @@ pub fn run(ctx: &Ctx) -> i32 {
         let mut rng = Rng::new(ctx.seed, 1);
         let mut ev = Evaluator::new();
         let mut prev = vec![];
+        if let Some(c) = r.get("case").filter(|c| c.str_of("kind") == "inplace") {
+            // replay the recorded game move by move on one board
+            if let Ok(start) = Pos::from_fen(&c.str_of("start")) {
+                use crate::board::Board;
+                use crate::move_gen::MoveGenerator;
+                let mg = MoveGenerator::new();
+                let mut b = eng::board_from_pos(&start);
+                let mut cur = start.clone();
+                for u in c.get("moves").and_then(|m| m.as_arr()).cloned().unwrap_or_default() {
+                    let u = u.as_str().unwrap_or("").to_string();
+                    let Some(m) = cur.find_uci(&u) else { break };
+                    let ms = mg.generate_moves(&b);
+                    let Some(em) = ms.iter().find(|x| x.to_algebraic() == u) else { break };
+                    b.make_move(em);
+                    cur = cur.make(&m);
+                    st.case(hash64(&(cur.sq, cur.stm)), true);
+                    let (x, y) = (Evaluator::new().evaluate(&b), Evaluator::new().evaluate(&Board::new(&cur.to_fen())));
+                    if x != y {
+                        st.violation("C14:inplace:replay", format!("board played in place evaluates to {}, the same position from FEN {} to {}", x, cur.to_fen(), y), c.clone());
+                        break;
+                    }
+                }
+            }
+            return finalize(ctx, spec, st);
+        }
         if let Some(c) = r.get("case") {
             for f in c.get("previous").and_then(|p| p.as_arr()).cloned().unwrap_or_default() {
                 if let Ok(q) = Pos::from_fen(f.as_str().unwrap_or("")) {
@@ -179,6 +297,19 @@ pub fn run(ctx: &Ctx) -> i32 {
         let mut prev = vec![];
         for i in (0..gen::CORPUS.len()).filter(|i| i % ctx.workers == w) {
             check(&gen::corpus_pos(i), &mut ev, &mut prev, &mut st, &mut rng);
+        }
+        // games played in place on one board vs the same positions set up from FEN
+        let n_games = ctx.budget(1200, 40_000) / ctx.workers as u64 + 1;
+        for g in 0..n_games {
+            if g >= 4 && ctx.past(0.3) {
+                break;
+            }
+            match g % 4 {
+                0 => inplace_game(&Pos::start(), 100, &mut rng, &mut st),
+                1 => inplace_game(&gen::corpus_pos(rng.below(gen::CORPUS.len() as u64) as usize), 40, &mut rng, &mut st),
+                2 => inplace_game(&gen::g_explode(&mut rng), 16, &mut rng, &mut st),
+                _ => inplace_game(&g_early_promotion(&mut rng), 24, &mut rng, &mut st),
+            }
         }
         while st.evals < per_worker && !ctx.out_of_time() {
             let (tag, ps): (&str, Vec<Pos>) = match rng.below(10) {
